@@ -21,6 +21,10 @@ func restoreIndex(rootGoitPath, path string, index *store.Index, tree *object.Tr
 
 	// get node
 	node, isNodeFound := object.GetNode(tree.Children, path)
+	if isNodeFound && len(node.Children) > 0 {
+		// a directory of that name in the HEAD commit is not this file
+		isNodeFound = false
+	}
 
 	// if the path is registered in the Index
 	if isEntryFound {
